@@ -3,13 +3,13 @@
 p=$1; shift
 cd /repo || exit 2
 if [ -n "$(git status --porcelain)" ]; then echo "repo not clean"; exit 2; fi
-git apply "$p" || { echo "patch does not apply"; exit 2; }
+git apply --3way "$p" 2>/dev/null || git apply "$p" || { echo "patch does not apply"; exit 2; }
 cd /verif
 for c in "$@"; do
   out=$(./check $c --tier ${TIER:-quick} 2>&1); rc=$?
   echo "== $c rc=$rc $(echo "$out" | grep -c '^VIOLATION') violations, $(echo "$out" | grep -c '^KNOWN-FINDING') known"
   echo "$out" | grep -E "^violation|^  (after|step|crash)|HARNESS|^VIOLATION" | cut -c1-400 | head -${LINES_MAX:-8}
 done
-git -C /repo checkout -- .
+git -C /repo reset -q --hard HEAD
 (cd /verif/sim && cargo build --offline -q 2>/dev/null; cd /verif/sched && cargo build --offline -q 2>/dev/null)  # binaries back to the unchanged tree
 git -C /repo status --porcelain | head -3
